@@ -1,9 +1,12 @@
 (* C01 — on a well-formed tree the local equations have exactly one solution: the recursive
    from-scratch recomputation of Spec.v. Also: the decision procedure decides the Prop. *)
 From Coq Require Import List ZArith Bool Lia.
-From Verif Require Import Lib.Vec2 C01.Model C01.Spec C01.Proofs_Base.
+From Verif Require Import Lib.VecN C01.Model C01.Spec C01.Proofs_Base.
 Import ListNotations.
 Open Scope Z_scope.
+
+Section WithDim.
+Context {D : Dim}.
 
 Section Unique.
   Variable s : state.
@@ -127,3 +130,5 @@ Proof.
            | intros [_ H] q Hq; apply quota_code_ok, H, Hq].
   - split; [discriminate|]. intros [H _]. apply nodupb_iff in H. congruence.
 Qed.
+
+End WithDim.
